@@ -26,6 +26,9 @@ package libdrv
 //	                        - glob patterns that are not portable (malformed, '[!', ']' or '-' first
 //	                          in a class, reversed ranges, '[' inside a class) and wildcards against
 //	                          values containing '/'
+//	                        - Equals/NotEqual/In/NotIn whose value list holds the literal "*" (the
+//	                          implementation's undocumented "any value" wildcard; counted as
+//	                          reference_silent_star_value; duality is still checked on them)
 //	                      A key that does not exist makes Equals/In/Matches/MatchesAny false and
 //	                      their negations true ("true if the value of key equals ..." has no value
 //	                      to be equal to).
@@ -376,6 +379,7 @@ type c19Val struct {
 	exists  bool
 	defined bool // the documentation says what this key is
 	podQoS  bool // the value is the qosclass of a POD object
+	star    bool // undefined because the value list of an equality operator holds the literal "*"
 }
 
 func (w *c19World) refPodKey(p *c19Pod, key string) c19Val {
@@ -502,6 +506,12 @@ func (w *c19World) refEvaluate(kind string, idx int, key, op string, values []st
 	pos := op
 	if c19Negated[op] {
 		pos = c19Dual[op]
+	}
+	if (pos == "Equals" || pos == "In") && c19HasStar(values) {
+		// the implementation treats the value "*" of Equals/NotEqual/In/NotIn as "any value"; the
+		// documentation neither mentions nor excludes it, so the reference says nothing
+		v.star = true
+		return false, false, v
 	}
 	var r bool
 	switch pos {
@@ -977,6 +987,8 @@ func c19RunExpr(ctx *Ctx, real *c19Real, cs *c19Case) {
 				fmt.Printf("DOCUMENTED-BUT-REJECTED %s %+v: %v\n", cs.Subj, *e, verr)
 			}
 		}
+	case !defined && v.star:
+		ctx.Count("reference_silent_star_value")
 	case !defined:
 		ctx.Count("reference_silent")
 	default:
@@ -990,11 +1002,8 @@ func c19RunExpr(ctx *Ctx, real *c19Real, cs *c19Case) {
 		}
 		if want != got {
 			sig := "evaluate:" + e.Op + ":" + c19KeyClass(e.Key)
-			switch {
-			case v.podQoS:
+			if v.podQoS {
 				sig = "pod/qosclass"
-			case c19HasStar(e.Values) && (e.Op == "Equals" || e.Op == "In" || e.Op == "NotIn"):
-				sig = "star-value:" + e.Op
 			}
 			ctx.Violate("reference", sig, cs, "%s %d: <%s %s %q> evaluates to %v, documented semantics give %v (value of key per documentation: %q, exists %v)",
 				cs.Subj, cs.Idx, e.Key, e.Op, e.Values, got, want, v.val, v.exists)
